@@ -29,7 +29,7 @@ func init() {
 	fw.Register(&fw.Prop{
 		ID:     "C11",
 		Builds: []string{"default", "386"}, // the 386 build runs a quarter of the random classes on a 32-bit target
-		Rule: "mine: (data of length 0..300, target, workers 1..16 or the constructor's default) with targets 3^k/len for k=0..8 exactly and +-1, +-2 ulp, 3^k/len*(1+-1e-9), targets at or below 1/len (1/len, 0.9/len, 1/(3 len), 1e-9, smallest subnormal, 0, -0, -1) and random targets up to 3^9/len; every nonce returned without error must satisfy Score(data||LE64(nonce)) >= target under the package's Score and under the model score; the process must survive (a worker-goroutine panic kills the child process and the case in flight is the witness). althash: the exported variable pow.Hash is set to SHA-1, SHA-224, SHA-256, SHA-512/224, SHA-512/256 or BLAKE2b-256 after start-up, then a nonce is mined for 1..5 zeros and scored with the package's own Score; a disagreement is a violation only for BLAKE2b-256 (the digest the statement fixes), for the other digests it is counted, not judged. shared: several Mine calls with different targets run concurrently on ONE *Worker; every returned nonce must meet its own target. reuse: six consecutive calls on one long-lived Worker with the message kept in one buffer that is edited in place between the calls. score: Score(msg) for messages of length 8..400 equals 3^z/len with z from the model (BLAKE2b-256, own b1t6, own Curl-P-81). check: the bit-plane lane test (hook) on crafted 64-lane states with exactly n-1, n, n+1 trailing zero trits at lane 0, 63 and random lanes for n in 0..243 returns the first qualifying lane or 64. " +
+		Rule: "mine: (data of length 0..300 — and, with targets at the 3^k/len boundaries for k = 1..6, data of 8 KiB..400 KiB with a length within 72 of m*2^j, j = 13..17, m = 1..3 —, target, workers 1..16 or the constructor's default) with targets 3^k/len for k=0..8 exactly and +-1, +-2 ulp, 3^k/len*(1+-1e-9), targets at or below 1/len (1/len, 0.9/len, 1/(3 len), 1e-9, smallest subnormal, 0, -0, -1) and random targets up to 3^9/len; every nonce returned without error must satisfy Score(data||LE64(nonce)) >= target under the package's Score and under the model score; the process must survive (a worker-goroutine panic kills the child process and the case in flight is the witness). althash: the exported variable pow.Hash is set to SHA-1, SHA-224, SHA-256, SHA-512/224, SHA-512/256 or BLAKE2b-256 after start-up, then a nonce is mined for 1..5 zeros and scored with the package's own Score; a disagreement is a violation only for BLAKE2b-256 (the digest the statement fixes), for the other digests it is counted, not judged. shared: several Mine calls with different targets run concurrently on ONE *Worker; every returned nonce must meet its own target. reuse: six consecutive calls on one long-lived Worker with the message kept in one buffer that is edited in place between the calls. score: Score(msg) for messages of length 8..400 equals 3^z/len with z from the model (BLAKE2b-256, own b1t6, own Curl-P-81). check: the bit-plane lane test (hook) on crafted 64-lane states with exactly n-1, n, n+1 trailing zero trits at lane 0, 63 and random lanes for n in 0..243 returns the first qualifying lane or 64. " +
 			"Non-trivial: mine cases with a target within 2 ulp of a 3^k/len boundary or with len*target < 1; all check cases; score cases.",
 		Assumptions: []string{"BLAKE2b-256 (x/crypto)", "float64 arithmetic of the Go runtime (3^z exact for z <= 33)", "the Curl-P-81 / b1t6 model in harness/oracle/curlp (self-tested)"},
 		SelfTest:    curlp.SelfTest,
@@ -38,6 +38,9 @@ func init() {
 		Render: func(class string, key []byte) interface{} {
 			p := fw.Unpack(key)
 			switch class {
+			case "bigmine":
+				t := math.Float64frombits(fw.GetU64(p[2]))
+				return map[string]interface{}{"data": fmt.Sprintf("%d bytes derived from seed %d", fw.GetU32(p[1]), fw.GetU64(p[0])), "target": fmt.Sprintf("%g (bits %016x)", t, fw.GetU64(p[2])), "workers": p[3][0]}
 			case "mine":
 				t := math.Float64frombits(fw.GetU64(p[1]))
 				return map[string]interface{}{"data": fw.Hex(p[0]), "target": fmt.Sprintf("%g (bits %016x)", t, fw.GetU64(p[1])), "target_times_len": t * float64(len(p[0])+8), "workers": p[2][0]}
@@ -52,7 +55,7 @@ func init() {
 			}
 			return map[string]interface{}{"seed": fw.GetU64(p[0]), "n": fw.GetU32(p[1])}
 		},
-		Required:      []string{"mine/score agree under a pow.Hash set after start-up", "mine returned", "mine boundary target", "mine target below 1/len", "score ok", "reuse executions", "shared-worker executions", "check ok", "nonce zeros == required", "nonce zeros > required"},
+		Required:      []string{"mine/score agree under a pow.Hash set after start-up", "mine returned", "mine with data of 8 KiB .. 400 KiB", "mine boundary target", "mine target below 1/len", "score ok", "reuse executions", "shared-worker executions", "check ok", "nonce zeros == required", "nonce zeros > required"},
 		WatchdogQuick: 900,
 	})
 }
@@ -74,8 +77,20 @@ func modelScore(z, n int) (float64, bool) {
 	return p / float64(n), z <= 33
 }
 
+// bigData derives the data of a bigmine case (tens or hundreds of KiB are not carried in the case key).
+func bigData(seed uint64, n int) []byte {
+	d := make([]byte, n)
+	fw.SubRng(int64(seed), "c11-bigmine").Read(d)
+	return d
+}
+
 func judge(class string, key []byte, o *fw.Obs) {
 	p := fw.Unpack(key)
+	if class == "bigmine" { // a mine case whose data is derived from a seed
+		p = [][]byte{bigData(fw.GetU64(p[0]), int(fw.GetU32(p[1]))), p[2], p[3]}
+		class = "mine"
+		o.Count("mine with data of 8 KiB .. 400 KiB")
+	}
 	switch class {
 	case "althash":
 		judgeAltHash(p[0][0], p[1], int(p[2][0]), int(p[3][0]), o)
@@ -498,6 +513,13 @@ func gen(g *fw.Gen) {
 			}
 		}
 		emitMine(g.Bytes(l), t, g.Rng.Intn(17)) // 0: New() without an argument
+	}
+	// data of 8 KiB .. 400 KiB, lengths next to m * 2^j (j = 13..17, m = 1..3): hashing in blocks, length bookkeeping
+	for n := g.ShareOf(96, 4800); n > 0; n-- {
+		l := (1+g.Rng.Intn(3))<<uint(13+g.Rng.Intn(5)) + g.Rng.Intn(145) - 72
+		b, _ := modelScore(1+g.Rng.Intn(6), l+8)
+		t := ulps(b, int64(g.Rng.Intn(3)-1))
+		g.Emit("bigmine", fw.Pack(fw.U64(g.Rng.Uint64()), fw.U32(uint32(l)), fw.U64(math.Float64bits(t)), []byte{byte(1 + g.Rng.Intn(8))}))
 	}
 	for n := g.ShareOf(64, 3000); n > 0; n-- {
 		g.Emit("shared", fw.Pack(fw.U64(g.Rng.Uint64())))
